@@ -12,6 +12,7 @@
      ev.num|ev.sym|ev.spec <x> <expr>        -> val <rat> | nan | other
      ev.func <causal:0|1> <x> <expr>         -> val <rat> | nan | other
      ev.regular <x> <expr>                   -> true | false
+     ev.boundary <x> <expr>                  -> true | false      on the boundary of a Piecewise condition
      ev.near <tol> <x> <v> <expr>            -> true | false | nospec      against specEval
      ev.eq <x> <v|nan> <expr>                -> true | false | nospec      against specEval, exactly
      ev.arg <causal:0|1> <x1,x2,...> <expr>  -> array <rat> ... | error
@@ -159,17 +160,18 @@ def parseTerms (toks : List String) : Option (List (List Factor)) :=
 
 def handle (toks : List String) : Option String :=
   match toks with
-  | [req, f, x] =>
-    if req == "sf.num" || req == "sf.sym" || req == "sf.spec" || req == "sf.disc" then
-      some <| match parseFn f, parseRat x with
-        | some f, some x =>
-          if req == "sf.num" then optStr (numericDef f x)
-          else if req == "sf.sym" then optStr (symbolicDef f x)
-          else if req == "sf.spec" then optStr (spec f x)
-          else toString (disc f x)
-        | _, _ => "bad-op"
-    else if req == "sf.eq" then none
-    else none
+  | ["sf.num", f, x] => some <| match parseFn f, parseRat x with
+      | some f, some x => optStr (numericDef f x)
+      | _, _ => "bad-op"
+  | ["sf.sym", f, x] => some <| match parseFn f, parseRat x with
+      | some f, some x => optStr (symbolicDef f x)
+      | _, _ => "bad-op"
+  | ["sf.spec", f, x] => some <| match parseFn f, parseRat x with
+      | some f, some x => optStr (spec f x)
+      | _, _ => "bad-op"
+  | ["sf.disc", f, x] => some <| match parseFn f, parseRat x with
+      | some f, some x => toString (disc f x)
+      | _, _ => "bad-op"
   | ["sf.dom", f] => some <| match parseFn f with
       | some f => toString (inDomain f)
       | none => "bad-op"
@@ -197,6 +199,9 @@ def handle (toks : List String) : Option String :=
       | _, _ => "bad-op"
   | "ev.func" :: c :: x :: rest => some <| match parseRat x, parseWhole rest with
       | some x, some e => outStr (funcScalar (c == "1") e x)
+      | _, _ => "bad-op"
+  | "ev.boundary" :: x :: rest => some <| match parseRat x, parseWhole rest with
+      | some x, some e => toString (onBoundary e x)
       | _, _ => "bad-op"
   | "ev.regular" :: x :: rest => some <| match parseRat x, parseWhole rest with
       | some x, some e => toString (regular e x)
